@@ -55,7 +55,7 @@ def gen_case(rng, scale=1):
         recomb_prob=rng.choice([0.0, 0.6, 1.0]),
         kinds=rng.choice([["snv"], ["snv"], ["snv", "snv", "ins", "del"]]),
     )
-    # a chromosome on which nobody has anything to phase (F13: --recombination-list used to crash there)
+    # a chromosome on which nobody has anything to phase (F22: --recombination-list used to crash there)
     params["empty_last_contig"] = bool(params["n_contigs"] > 1 and rng.random() < 0.15)
     distrust = rng.random() < 0.5
     params["gt_error_prob"] = rng.choice([0.1, 0.2]) if distrust else 0.0
@@ -179,9 +179,9 @@ def run_case(ctx, case, n):
     try:
         _, _, rout = R.load_vcf(out)
     except OSError:
-        # --tag HP can write a NUL byte as HP value (defect F12, reported by the C04/C09 checks): the output cannot
+        # --tag HP can write a NUL byte as HP value (defect F21, reported by the C04/C09 checks): the output cannot
         # be parsed, so the VCF-dependent predicates are skipped for this run
-        ctx.observe("output VCF unreadable by htslib (F12: HP written as NUL); VCF-dependent predicates skipped")
+        ctx.observe("output VCF unreadable by htslib (F21: HP written as NUL); VCF-dependent predicates skipped")
         rout = None
     blocks = R.chrom_blocks(rin)
     sel = o.get("chromosomes")
